@@ -178,29 +178,12 @@ Definition go_case (colon at_ : bool) (t : text) : text :=
   | false, false => map to_lower t
   end.
 
-(* ---- prefix parameters: readParam, slip.ReadCharacter ------------------------------------------- *)
+(* ---- prefix parameters: readParam ------------------------------------------------------------------- *)
 (* from pos up to the first byte the scan map marks; returns the new position *)
 Fixpoint go_read_param (T : tables) (fuel : nat) (s : text) (pos cend : nat) : nat :=
   match fuel with
   | O => pos
   | S f => if Nat.ltb pos cend then (if is_stop T (ch_at s pos) then pos else go_read_param T f s (S pos) cend) else pos
-  end.
-Inductive rchar := RChar (a : ascii) | RCharErr | RCharUnsup.
-Definition go_read_character (src : text) : rchar :=
-  match src with
-  | [] => RCharErr
-  | [a] => RChar a
-  | a :: _ =>
-      let l := map to_lower src in
-      if text_eqb l (tx "space") then RChar sp
-      else if text_eqb l (tx "newline") then RChar nl
-      else if text_eqb l (tx "tab") then RChar (chr 9)
-      else if text_eqb l (tx "page") then RChar (chr 12)
-      else if text_eqb l (tx "return") then RChar (chr 13)
-      else if text_eqb l (tx "rubout") then RChar (chr 127)
-      else if text_eqb l (tx "backspace") then RChar (chr 8)
-      else if ascii_eqb a "u" || ascii_eqb a "U" then RCharUnsup        (* hexadecimal code point: not modelled *)
-      else RChar a                                                       (* utf8.DecodeRune: the first character *)
   end.
 
 (* ---- scanDirBlock (control.go:405) --------------------------------------------------------------- *)
